@@ -11,7 +11,7 @@
      AUTO with limit <> 0: count n + p n <= limit for every node that received >= 1. *)
 From Coq Require Import String ZArith List Permutation Sorted.
 From Verif Require Import Base.GoInt Base.GoSort Base.GoSortSpec Strategy.Model Strategy.ProofsBase
-  Strategy.ProofsSort Strategy.Proofs Strategy.ProofsOk Strategy.ProofsOld Strategy.Statements Strategy.Glue Strategy.ProofsGlue Strategy.ProofsProj Strategy.ModelW Strategy.ProofsW Strategy.ProofsW2.
+  Strategy.ProofsSort Strategy.Proofs Strategy.ProofsOk Strategy.ProofsOld Strategy.Statements Strategy.Glue Strategy.ProofsGlue Strategy.ProofsProj Strategy.ModelW Strategy.ProofsW Strategy.ProofsW2 Calcium.DeployPath Calcium.DeployPathProofs.
 Local Open Scope Z_scope.
 
 (* full statement, all five strategies, all tables / counts / limits / totals *)
@@ -157,3 +157,57 @@ Theorem C01_drained_class_invariant : forall infos s1 s2 need total,
   res_class_eqb (drained_from s1 need total) (drained_from s2 need total) = true.
 Proof. exact drained_class_invariant. Qed.
 Print Assumptions C01_drained_class_invariant.
+
+(* ---- the composed deploy path (Calcium/DeployPath.v): cpumem capacity -> cobalt
+   aggregation -> doGetDeployStrategy -> strategy.Deploy -> per-node Alloc.
+   [path_hyps]: valid request, distinct node names, the plugin computed [caps],
+   capacities are Go ints (named hypothesis caps_int64), deploy status >= 0,
+   [morder] any iteration order of the merged capacity map. ---- *)
+
+(* (b) every planned allocation is accepted by the plugin on the unchanged node *)
+Theorem C01_path_alloc_accepted :
+  forall sortf base maxshare raw req orders nodes caps morder status need limit s p n,
+  path_hyps sortf base maxshare raw req orders nodes caps morder status need limit ->
+  deploy_path sortf base maxshare raw orders nodes morder status s need limit = PResult (Ok p) ->
+  In n nodes -> 1 <= mget p (fst n) ->
+  alloc_accepts sortf base maxshare raw orders n (mget p (fst n)) = true.
+Proof. exact deploy_path_alloc_accepted. Qed.
+Print Assumptions C01_path_alloc_accepted.
+
+(* (b) for any set of plugins: the planned count is within every plugin's capacity *)
+Theorem C01_path_within_every_plugin :
+  forall (answers : list Merge.famap) morder status need limit,
+  answers <> nil ->
+  (forall a, In a answers -> NoDup (map fst a)) ->
+  (forall a k v, In a answers -> In (k, v) a -> 0 <= Merge.n_cap v <= max_int) ->
+  (forall k, 0 <= mget status k) ->
+  Permutation (entries_of (fst (Merge.gndc_f answers))) morder ->
+  0 < need -> 0 <= limit ->
+  forall s p n a i,
+  manager_then_deploy answers morder status s need limit = Ok p ->
+  In a answers -> Merge.lookup n a = Some i -> 0 <= mget p n <= Merge.n_cap i.
+Proof. exact path_within_every_plugin. Qed.
+Print Assumptions C01_path_within_every_plugin.
+
+(* (c) a node that some plugin does not offer never receives instances *)
+Theorem C01_path_only_offered :
+  forall (answers : list Merge.famap) morder status need limit,
+  answers <> nil ->
+  (forall a, In a answers -> NoDup (map fst a)) ->
+  (forall a k v, In a answers -> In (k, v) a -> 0 <= Merge.n_cap v <= max_int) ->
+  (forall k, 0 <= mget status k) ->
+  Permutation (entries_of (fst (Merge.gndc_f answers))) morder ->
+  0 < need -> 0 <= limit ->
+  forall s p n,
+  manager_then_deploy answers morder status s need limit = Ok p ->
+  mhas p n = true -> forall a, In a answers -> In n (map fst a).
+Proof. exact path_only_offered. Qed.
+Print Assumptions C01_path_only_offered.
+
+Theorem C01_path_not_offered :
+  forall sortf base maxshare raw req orders nodes caps morder status need limit s p n c,
+  path_hyps sortf base maxshare raw req orders nodes caps morder status need limit ->
+  deploy_path sortf base maxshare raw orders nodes morder status s need limit = PResult (Ok p) ->
+  In (n, c) caps -> Calc.cap_capacity c <= 0 -> mhas p n = false /\ mget p n = 0.
+Proof. exact deploy_path_not_offered. Qed.
+Print Assumptions C01_path_not_offered.
